@@ -184,6 +184,12 @@ func init() {
 				// method of reflect.Type called on a nil interface value panics
 				c.safety(st, "nilderef", "reflect.Type."+fobj.Name(), not(eq(a[0], "inil")), x.Pos())
 			}
+			if rv := fobj.Type().(*types.Signature).Recv(); rv != nil && isReflectValue(rv.Type()) && len(a) > 0 {
+				// kind preconditions of the reflect.Value accessors (violations panic)
+				if pre := reflectValuePre(fobj.Name(), a); pre != "" {
+					c.safety(st, "reflectpanic", "reflect.Value."+fobj.Name(), pre, x.Pos())
+				}
+			}
 			r := f(c, a, st)
 			if c.specMode == 0 {
 				// the result is a value of its Go type (integer range, well-formed interface value)
@@ -216,6 +222,31 @@ func init() {
 	libModels["reflect.(Value).Len"] = one(func(c *FnCtx, a []string, st *State) string { return "(vlen " + a[0] + ")" })
 	libModels["reflect.(Value).NumField"] = one(func(c *FnCtx, a []string, st *State) string { return "(vnumfield " + a[0] + ")" })
 	libModels["reflect.(Value).Index"] =one(func(c *FnCtx, a []string, st *State) string { return "(vindex " + a[0] + " " + a[1] + ")" })
+	// Elem of a non-nil pointer-kinded Value is a valid Value of the pointer's element type; otherwise (nil pointer,
+	// interface kind) an uninterpreted Value that may be the zero Value. Panics for every other kind.
+	libModels["reflect.(Value).Elem"] = func(c *FnCtx, x *ast.CallExpr, fobj *types.Func, a []string, st *State) []string {
+		c.useReflect()
+		k := kindOfVal(a[0])
+		c.safety(st, "reflectpanic", "reflect.Value.Elem", or(eq(k, fmt.Sprint(kPtr)), eq(k, fmt.Sprint(kIface))), x.Pos())
+		r := c.pureUF("velem", fobj, a, st, false)
+		if c.specMode == 0 {
+			st.addFact(implies(and(eq(k, fmt.Sprint(kPtr)), not(eq("(iref "+a[0]+")", "0"))),
+				and("((_ is ibox) "+r[0]+")", eq("(ityp "+r[0]+")", "(elemOfTid (ityp "+a[0]+"))"))))
+		}
+		return r
+	}
+	// CanSet / CanAddr / CanInterface: uninterpreted, but true only of a valid Value
+	for _, m := range []string{"CanSet", "CanAddr", "CanInterface"} {
+		m := m
+		libModels["reflect.(Value)."+m] = func(c *FnCtx, x *ast.CallExpr, fobj *types.Func, a []string, st *State) []string {
+			c.useReflect()
+			r := c.pureUF("v"+m, fobj, a, st, false)
+			if c.specMode == 0 {
+				st.addFact(implies(r[0], not(eq(a[0], "inil"))))
+			}
+			return r
+		}
+	}
 	libModels["reflect.(Value).Convert"] =func(c *FnCtx, x *ast.CallExpr, fobj *types.Func, a []string, st *State) []string {
 		c.useReflect()
 		r := c.fresh("conv", sIface)
@@ -238,14 +269,28 @@ func init() {
 		return "(implements (iint " + a[0] + ") (iint " + a[1] + "))"
 	})
 	libModels["reflect.New"] = func(c *FnCtx, x *ast.CallExpr, fobj *types.Func, a []string, st *State) []string {
+		// a function of the type (the callers use the result as a carrier of the type's method set or fill it
+		// through reflection; the identity of the pointee is not modelled): a valid, non-nil pointer-kinded Value
 		c.useReflect()
-		return c.pureUF("rnew", fobj, a, st, false)
+		r := c.pureUF("rnew", fobj, a, st, false)
+		if c.specMode == 0 {
+			st.addFact(and("((_ is ibox) "+r[0]+")", eq("(kindOfTid (ityp "+r[0]+"))", fmt.Sprint(kPtr)), eq("(elemOfTid (ityp "+r[0]+"))", "(iint "+a[0]+")"), "(> (iref "+r[0]+") 0)"))
+		}
+		c.abstractions["reflect.New (library model: a function of the type; pointee identity not modelled)"] = true
+		return r
 	}
 	libModels["reflect.(Value).Call"] = func(c *FnCtx, x *ast.CallExpr, fobj *types.Func, a []string, st *State) []string {
 		// a reflective call is a function of the method value and the arguments (the methods reached this way,
 		// generated ΛMap / ΛListKeyMap style accessors, read no mutable state); nothing is known about the result
 		c.useReflect()
-		return c.pureUF("rcall", fobj, a, st, false)
+		r := c.pureUF("rcall", fobj, a, st, false)
+		if c.specMode == 0 {
+			// every result of a call is a valid Value
+			n, srt := c.elemsArr(fobj.Type().(*types.Signature).Results().At(0).Type().Underlying().(*types.Slice).Elem())
+			row := sel(c.h(st, n, srt), "(sbase "+r[0]+")")
+			st.addFact("(forall ((ri Int)) (! (=> (and (<= 0 ri) (< ri (slen " + r[0] + "))) (not (= " + sel(row, "(+ (soff "+r[0]+") ri)") + " inil))) :pattern (" + sel(row, "(+ (soff "+r[0]+") ri)") + ")))")
+		}
+		return r
 	}
 	// strings.Split with a constant non-empty separator: the result has 1 + (number of non-overlapping separators)
 	// elements; the one- and two-element cases are described exactly.
@@ -404,4 +449,37 @@ func sprintfAllStrings(c *FnCtx, x *ast.CallExpr, format string, args []string) 
 	}
 	c.useReflect()
 	return "(str.++ " + strings.Join(parts, " ") + ")", true
+}
+
+// reflectValuePre: the condition under which the reflect.Value accessor does not panic ("" = none modelled).
+func reflectValuePre(method string, a []string) string {
+	k := ite(eq(a[0], "inil"), "0", "(kindOfTid (ityp "+a[0]+"))")
+	in := func(ks ...int) string {
+		var ds []string
+		for _, x := range ks {
+			ds = append(ds, eq(k, fmt.Sprint(x)))
+		}
+		return or(ds...)
+	}
+	switch method {
+	case "Type", "Interface":
+		return not(eq(a[0], "inil"))
+	case "Int":
+		return and("(<= 2 "+k+")", "(<= "+k+" 6)")
+	case "Uint":
+		return and("(<= 7 "+k+")", "(<= "+k+" 12)")
+	case "Float":
+		return in(kFloat32, kFloat64)
+	case "Bool":
+		return in(kBool)
+	case "NumField":
+		return in(kStruct)
+	case "Len":
+		return in(kArray, kChan, kMap, kSlice, kString, kPtr) // Ptr: pointer to array
+	case "Index":
+		if len(a) > 1 {
+			return and(in(kArray, kSlice, kString), "(<= 0 "+a[1]+")", "(< "+a[1]+" (vlen "+a[0]+"))")
+		}
+	}
+	return ""
 }
